@@ -229,6 +229,46 @@ void ScriptVM::loadTop(EventSystem& eventSystem, Listener* listener)
     if constexpr (!noTop) m_Stack.Pop();
 }
 
+void ScriptVM::loadTopGroup(EventSystem& eventSystem, const ScriptVariable& group)
+{
+    // copy the group first: a setter can change the list it comes from, and the
+    // stack slot the group was popped from is reused below
+    ScriptVariable array = group;
+    array.CastConstArrayValue();
+
+    const opval_t* const operands = m_CodePos;
+    // every member gets its own copy of the assigned value
+    const ScriptVariable value = m_Stack.GetTop();
+
+    try
+    {
+        for (uintptr_t i = array.arraysize(); i > 0; i--)
+        {
+            Listener* const listener = array.listenerAt(i);
+            // like for commands, a member that is gone is skipped
+            if (listener)
+            {
+                m_CodePos = operands;
+                m_Stack.PushAndGet() = value;
+                // reads the operands and consumes the copy (on its error path too)
+                loadTop(eventSystem, listener);
+            }
+        }
+    }
+    catch (...)
+    {
+        // the assigned value is consumed on the error path too
+        m_CodePos = operands;
+        skipField();
+        m_Stack.Pop();
+        throw;
+    }
+
+    m_CodePos = operands;
+    skipField();
+    m_Stack.Pop();
+}
+
 template<bool noTop>
 ScriptVariable* ScriptVM::storeTop(EventSystem& eventSystem, Listener* listener)
 {
@@ -1007,6 +1047,15 @@ bool ScriptVM::Process(ScriptContext& context, uinttime_t interruptTime)
 
             try
             {
+                const size_t arraysize = a.arraysize();
+                if (arraysize != (size_t)-1 && arraysize > 1)
+                {
+                    // a group of objects: the assignment reaches every member, like a command does
+                    eventCalled = true;
+                    loadTopGroup(eventSystem, a);
+                    break;
+                }
+
                 Listener* listener = a.listenerValue();
 
                 if (listener == nullptr)
